@@ -319,13 +319,23 @@ def run(prog, rep, tier):
         rep.ob('R16.3', ok, 'R16.3|%s|FileWriter.path-from-create_file' % body.nkey, 'FileWriter.path is the vetted path returned by create_file' if ok else 'FileWriter.path does not come from create_file', body.loc(bb, i))
     fw = one_body(prog, rep, 'R16.3', 'mlar', adt='FileWriter', name='write', trait='std::io::Write')
     if fw is not None:
-        opens = [b for b in fw.calls() if cnorm(b.term) in FS_SINKS and cnorm(b.term) != 'std::fs::File::options']
+        # (the open may sit in a closure of write -- e.g. the miss handler of a cache lookup -- that captures the path)
+        opens = [(bd, b) for bd in [fw] + prog.closures_of(fw) for b in bd.calls() if cnorm(b.term) in FS_SINKS and cnorm(b.term) != 'std::fs::File::options']
         rep.floor('R16.3.open', len(opens), 1, 'file opens in FileWriter::write')
-        for b in opens:
+
+        def is_self_path(kind, obj, b3):
+            if kind == 'assign' and obj.kind == 'assign' and obj.rv is not None:
+                pls = obj.rv.src_places()
+                return len(pls) == 1 and pls[0][0] == 1 and place_fields(pls[0])[-1:] == ['path']
+            return False
+        for bd, b in opens:
             pa = b.term.args[-1]
-            o = origins(fw, [pa.place[0]], through_calls=False) if pa.place else None
-            ok = o is not None and o.fields and all(f[0] == 'self' and f[-1] == 'path' for f in o.fields) and not (o.params - {1})
-            rep.ob('R16.3', bool(ok), 'R16.3|%s|opens-only-self.path' % fw.nkey, 'FileWriter::write opens only self.path' if ok else 'FileWriter::write opens a path other than self.path', fw.loc(b.idx))
+            if bd is fw:
+                o = origins(fw, [pa.place[0]], through_calls=False) if pa.place else None
+                ok = o is not None and o.fields and all(f[0] == 'self' and f[-1] == 'path' for f in o.fields) and not (o.params - {1})
+            else:
+                ok = pa.place is not None and must_derive_captured(prog, fw, bd, pa.place[0], is_self_path, extra_transparent=('as_path', 'as_ref', 'deref', 'borrow', 'clone'))
+            rep.ob('R16.3', bool(ok), 'R16.3|%s|opens-only-self.path' % fw.nkey, 'FileWriter::write opens only self.path' if ok else 'FileWriter::write opens a path other than self.path', bd.loc(b.idx))
 
     # ---------------- R16.4 sink census
     tbl_path = os.path.join(os.path.dirname(os.path.dirname(os.path.dirname(os.path.abspath(__file__)))), 'tables', 'fs_sinks.json')
